@@ -261,7 +261,9 @@ impl InnerFilter {
     }
 
     fn progress_filtertime(&mut self, time: Time, wander: f64, config: &KalmanConfiguration) {
-        debug_assert!(time >= self.filter_time);
+        // The clock can legitimately report a time before the filter time: a packet
+        // timestamped just before the clock was stepped backwards carries a time that
+        // is ahead of the stepped clock. There is nothing to progress then.
         if time < self.filter_time {
             return;
         }
